@@ -4,6 +4,7 @@ package main
 
 import (
 	"context"
+	"errors"
 	"io"
 	"os"
 	"strconv"
@@ -37,13 +38,41 @@ func errs(e error) any {
 	return e.Error()
 }
 
+var errFile *os.File
+var errOff int64
+
 func ensure(scratch string) error {
 	if env != nil {
 		return nil
 	}
 	var err error
-	env, err = hx.NewEnv(scratch, nil)
+	if errFile == nil {
+		errFile, err = os.CreateTemp(scratch, "initerr")
+		if err != nil {
+			return err
+		}
+	}
+	env, err = hx.NewEnv(scratch, errFile)
+	container.VerifTakeEvents()
+	st, _ := errFile.Stat()
+	errOff = st.Size()
 	return err
+}
+
+// contLog returns what the container init wrote to its stderr since the environment was built
+func contLog() []string {
+	time.Sleep(3 * time.Millisecond)
+	b, _ := os.ReadFile(errFile.Name())
+	if int64(len(b)) < errOff {
+		return nil
+	}
+	var r []string
+	for _, l := range strings.Split(string(b[errOff:]), "\n") {
+		if l != "" {
+			r = append(r, l)
+		}
+	}
+	return r
 }
 
 func fileObs(f *os.File, read bool, write string) map[string]any {
@@ -85,140 +114,173 @@ func main() {
 			}
 			t0 := time.Now()
 			o := map[string]any{"op": kind}
-			switch kind {
-			case "newenv":
-				if env != nil {
-					env.Destroy()
-					env = nil
-				}
-				o["err"] = errs(ensure(scratch))
-			case "destroy":
-				if env != nil {
-					o["err"] = errs(env.Destroy())
-					env = nil
-				}
-			case "ping":
-				o["err"] = errs(env.Ping())
-			case "reset":
-				o["err"] = errs(env.Reset())
-			case "delete":
-				o["err"] = errs(env.Delete(op["path"].(string)))
-			case "symlink":
-				var ls []container.SymbolicLink
-				for _, l := range op["links"].([]any) {
-					m := l.(map[string]any)
-					ls = append(ls, container.SymbolicLink{LinkPath: m["link"].(string), Target: m["target"].(string)})
-				}
-				res, err := env.Symlink(ls)
-				o["err"] = errs(err)
-				rs := []any{}
-				for _, e := range res {
-					rs = append(rs, errs(e))
-				}
-				o["results"] = rs
-			case "open":
-				var items []container.OpenCmd
-				raws := op["items"].([]any)
-				for _, it := range raws {
-					m := it.(map[string]any)
-					items = append(items, container.OpenCmd{Path: m["path"].(string), Flag: int(hx.Int(m["flag"])),
-						Perm: os.FileMode(hx.Int(m["perm"])), MkdirAll: m["mkdirall"] == true})
-				}
-				res, err := env.Open(items)
-				o["err"] = errs(err)
-				rs := []any{}
-				for i, r := range res {
-					m := raws[i].(map[string]any)
-					if r.Err != nil {
-						rs = append(rs, map[string]any{"err": r.Err.Error()})
-						continue
+			finished := make(chan struct{})
+			go func() {
+				defer close(finished)
+				switch kind {
+				case "logs":
+					// wire-level logs of both endpoints since the environment was built (a ping first, so that the
+					// container has consumed whatever the host still owed it)
+					env.Ping()
+					o["host"] = container.VerifTakeEvents()
+					o["cont"] = contLog()
+				case "newenv":
+					if env != nil {
+						env.Destroy()
+						env = nil
 					}
-					w, _ := m["write"].(string)
-					fo := fileObs(r.File, m["read"] == true, w)
-					fo["name"] = r.File.Name()
-					rs = append(rs, fo)
-					r.File.Close()
-				}
-				o["results"] = rs
-			case "openstress":
-				// rounds of large create / read-back batches: identity, content and order of every descriptor
-				rounds, n := int(hx.Int(op["rounds"])), int(hx.Int(op["n"]))
-				fail := ""
-				done := 0
-			outer:
-				for rd := 0; rd < rounds && fail == ""; rd++ {
-					items := make([]container.OpenCmd, n)
-					for i := range items {
-						items[i] = container.OpenCmd{Path: "/w/stress/d" + strconv.Itoa(i%7) + "/file-with-a-rather-long-name-" + strconv.Itoa(i), Flag: os.O_CREATE | os.O_RDWR | os.O_TRUNC, Perm: 0600, MkdirAll: true}
+					o["err"] = errs(ensure(scratch))
+				case "destroy":
+					if env != nil {
+						o["err"] = errs(env.Destroy())
+						env = nil
+					}
+				case "ping":
+					o["err"] = errs(env.Ping())
+				case "reset":
+					o["err"] = errs(env.Reset())
+				case "delete":
+					o["err"] = errs(env.Delete(op["path"].(string)))
+				case "symlink":
+					var ls []container.SymbolicLink
+					for _, l := range op["links"].([]any) {
+						m := l.(map[string]any)
+						ls = append(ls, container.SymbolicLink{LinkPath: m["link"].(string), Target: m["target"].(string)})
+					}
+					res, err := env.Symlink(ls)
+					o["err"] = errs(err)
+					rs := []any{}
+					for _, e := range res {
+						rs = append(rs, errs(e))
+					}
+					o["results"] = rs
+				case "open":
+					var items []container.OpenCmd
+					raws := op["items"].([]any)
+					for _, it := range raws {
+						m := it.(map[string]any)
+						items = append(items, container.OpenCmd{Path: m["path"].(string), Flag: int(hx.Int(m["flag"])),
+							Perm: os.FileMode(hx.Int(m["perm"])), MkdirAll: m["mkdirall"] == true})
 					}
 					res, err := env.Open(items)
-					if err != nil {
-						fail = "round " + strconv.Itoa(rd) + ": open: " + err.Error()
-						break
-					}
-					inos := map[uint64]int{}
+					o["err"] = errs(err)
+					rs := []any{}
 					for i, r := range res {
+						m := raws[i].(map[string]any)
 						if r.Err != nil {
-							fail = "round " + strconv.Itoa(rd) + ": item " + strconv.Itoa(i) + ": " + r.Err.Error()
-							break outer
+							rs = append(rs, map[string]any{"err": r.Err.Error()})
+							continue
 						}
-						var st syscall.Stat_t
-						if err := syscall.Fstat(int(r.File.Fd()), &st); err != nil {
-							fail = "round " + strconv.Itoa(rd) + ": item " + strconv.Itoa(i) + ": fstat: " + err.Error()
-							break outer
-						}
-						if j, dup := inos[st.Ino]; dup {
-							fail = "round " + strconv.Itoa(rd) + ": items " + strconv.Itoa(j) + " and " + strconv.Itoa(i) + " were handed the same file"
-							break outer
-						}
-						inos[st.Ino] = i
-						r.File.WriteString(strconv.Itoa(i))
-					}
-					for _, r := range res {
+						w, _ := m["write"].(string)
+						fo := fileObs(r.File, m["read"] == true, w)
+						fo["name"] = r.File.Name()
+						rs = append(rs, fo)
 						r.File.Close()
 					}
-					for i := range items {
-						items[i].Flag = os.O_RDONLY
-						items[i].MkdirAll = false
-					}
-					res, err = env.Open(items)
-					if err != nil {
-						fail = "round " + strconv.Itoa(rd) + ": read-back open: " + err.Error()
-						break
-					}
-					for i, r := range res {
-						if r.Err != nil {
-							fail = "round " + strconv.Itoa(rd) + ": read-back item " + strconv.Itoa(i) + ": " + r.Err.Error()
+					o["results"] = rs
+				case "openstress":
+					// rounds of large create / read-back batches: identity, content and order of every descriptor
+					rounds, n := int(hx.Int(op["rounds"])), int(hx.Int(op["n"]))
+					fail := ""
+					done := 0
+				outer:
+					for rd := 0; rd < rounds && fail == ""; rd++ {
+						items := make([]container.OpenCmd, n)
+						for i := range items {
+							items[i] = container.OpenCmd{Path: "/w/stress/d" + strconv.Itoa(i%7) + "/file-with-a-rather-long-name-" + strconv.Itoa(i), Flag: os.O_CREATE | os.O_RDWR | os.O_TRUNC, Perm: 0600, MkdirAll: true}
+						}
+						res, err := env.Open(items)
+						if err != nil {
+							fail = "round " + strconv.Itoa(rd) + ": open: " + err.Error()
 							break
 						}
-						b, _ := io.ReadAll(io.LimitReader(r.File, 64))
-						if string(b) != strconv.Itoa(i) && fail == "" {
-							fail = "round " + strconv.Itoa(rd) + ": item " + strconv.Itoa(i) + " reads back " + strconv.Quote(string(b))
+						inos := map[uint64]int{}
+						for i, r := range res {
+							if r.Err != nil {
+								fail = "round " + strconv.Itoa(rd) + ": item " + strconv.Itoa(i) + ": " + r.Err.Error()
+								break outer
+							}
+							var st syscall.Stat_t
+							if err := syscall.Fstat(int(r.File.Fd()), &st); err != nil {
+								fail = "round " + strconv.Itoa(rd) + ": item " + strconv.Itoa(i) + ": fstat: " + err.Error()
+								break outer
+							}
+							if j, dup := inos[st.Ino]; dup {
+								fail = "round " + strconv.Itoa(rd) + ": items " + strconv.Itoa(j) + " and " + strconv.Itoa(i) + " were handed the same file"
+								break outer
+							}
+							inos[st.Ino] = i
+							r.File.WriteString(strconv.Itoa(i))
 						}
-						r.File.Close()
+						for _, r := range res {
+							r.File.Close()
+						}
+						for i := range items {
+							items[i].Flag = os.O_RDONLY
+							items[i].MkdirAll = false
+						}
+						res, err = env.Open(items)
+						if err != nil {
+							fail = "round " + strconv.Itoa(rd) + ": read-back open: " + err.Error()
+							break
+						}
+						for i, r := range res {
+							if r.Err != nil {
+								fail = "round " + strconv.Itoa(rd) + ": read-back item " + strconv.Itoa(i) + ": " + r.Err.Error()
+								break
+							}
+							b, _ := io.ReadAll(io.LimitReader(r.File, 64))
+							if string(b) != strconv.Itoa(i) && fail == "" {
+								fail = "round " + strconv.Itoa(rd) + ": item " + strconv.Itoa(i) + " reads back " + strconv.Quote(string(b))
+							}
+							r.File.Close()
+						}
+						if err := env.Ping(); err != nil && fail == "" {
+							fail = "round " + strconv.Itoa(rd) + ": ping: " + err.Error()
+						}
+						done++
 					}
-					if err := env.Ping(); err != nil && fail == "" {
-						fail = "round " + strconv.Itoa(rd) + ": ping: " + err.Error()
+					o["rounds_done"], o["fail"] = done, fail
+				case "exec":
+					buf, err := pipe.NewBuffer(1 << 20)
+					if err != nil {
+						o["harness_err"] = err.Error()
+						return
 					}
-					done++
+					null, _ := os.Open("/dev/null")
+					ctx, cancel := context.WithTimeout(context.Background(), 8*time.Second)
+					p := container.ExecveParam{Args: strs(op["args"]), Env: []string{"PATH=/usr/bin:/bin"},
+						Files: []uintptr{null.Fd(), buf.W.Fd(), buf.W.Fd()}, SyncAfterExec: op["sync_after"] == true}
+					if n := int(hx.Int(op["env_bytes"])); n > 0 {
+						p.Env = append(p.Env, "BIG="+strings.Repeat("x", n))
+					}
+					syncPid := 0
+					switch op["sync"] {
+					case "ok":
+						p.SyncFunc = func(pid int) error { syncPid = pid; return nil }
+					case "fail":
+						p.SyncFunc = func(pid int) error { syncPid = pid; return errors.New("callback says no") }
+					}
+					if ms := hx.Int(op["cancel_ms"]); op["cancel_ms"] != nil && ms >= 0 {
+						go func() { time.Sleep(time.Duration(ms) * time.Millisecond); cancel() }()
+					}
+					r := env.Execve(ctx, p)
+					cancel()
+					null.Close()
+					buf.W.Close()
+					<-buf.Done
+					o["status"], o["exit"], o["errmsg"] = int(r.Status), r.ExitStatus, r.Error
+					o["stdout"] = strings.TrimSpace(buf.Buffer.String())
+					o["sync_pid"] = syncPid
 				}
-				o["rounds_done"], o["fail"] = done, fail
-			case "exec":
-				buf, err := pipe.NewBuffer(1 << 20)
-				if err != nil {
-					return map[string]any{"harness_err": err.Error()}
-				}
-				null, _ := os.Open("/dev/null")
-				ctx, cancel := context.WithTimeout(context.Background(), 20*time.Second)
-				p := container.ExecveParam{Args: strs(op["args"]), Env: []string{"PATH=/usr/bin:/bin"},
-					Files: []uintptr{null.Fd(), buf.W.Fd(), buf.W.Fd()}}
-				r := env.Execve(ctx, p)
-				cancel()
-				null.Close()
-				buf.W.Close()
-				<-buf.Done
-				o["status"], o["exit"], o["errmsg"] = int(r.Status), r.ExitStatus, r.Error
-				o["stdout"] = strings.TrimSpace(buf.Buffer.String())
+			}()
+			select {
+			case <-finished:
+			case <-time.After(12 * time.Second):
+				// the call hangs: report it and abandon this environment (and the rest of the history)
+				obs = append(obs, map[string]any{"op": kind, "hang": true, "ms": time.Since(t0).Milliseconds()})
+				env = nil
+				return map[string]any{"obs": obs, "hang": true}
 			}
 			o["ms"] = time.Since(t0).Milliseconds()
 			obs = append(obs, o)
